@@ -555,7 +555,7 @@ fn gen(rng: &mut Rng, tier: Tier, emit: &mut dyn FnMut(Vec<Tok>)) {
         let nh = match (tier, big) {
             (_, true) => 1,
             (Tier::Quick, _) => 8,
-            (Tier::Thorough, _) => 70,
+            (Tier::Thorough, _) => 50,
         };
         for _ in 0..nh {
             let nops = if pages > 64 { rng.range(1, 14) } else if tier == Tier::Quick { rng.range(1, 28) } else { rng.range(1, 60) };
